@@ -4,7 +4,7 @@
   model function.  `JS/Props/Tie.lean` proves the two evaluators equal on shaped schemas; the driver
   also runs both on every VAL case and reports any difference (`srcDiff`).
 -/
-import JS.Py.Interp
+import JS.Py.Interp2
 import JS.Generated.Source
 namespace JS.Py
 open JS.Generated.Source
@@ -56,11 +56,26 @@ def srcOf : KwFn → Option Fn
   | .never => none
   | .foreign _ => none
 
-/-- interpreted source where there is one, the hand-written function otherwise -/
+/-- the regenerated source in the richer subset (`JS.Py.IR2`), for the functions that need it -/
+def src2Of : KwFn → Option Fn2
+  | .anyOf => some src2_anyOf
+  | .oneOf => some src2_oneOf
+  | .properties_draft3 => some src2_properties_draft3
+  | .type_draft3 => some src2_type_draft3
+  | .additionalProperties => some src2_additionalProperties
+  | .multipleOf => some src2_multipleOf
+  | .format => some src2_format
+  | .ref => some src2_ref
+  | _ => none
+
+/-- interpreted source where there is one (first or second subset), the hand-written function otherwise -/
 def applyKwSrc (env : Env) (impl : FmtImpl) (cfg : Cfg) (rec : Rec) (f : KwFn) (v inst schema : Json) : Gen :=
   match srcOf f with
   | some (.body b) => Fn.run env cfg rec (.body b) v inst schema
-  | _ => applyKw env impl cfg rec f v inst schema
+  | _ =>
+    match src2Of f with
+    | some (.body b) => Fn2.run env cfg rec (.body b) v inst schema
+    | _ => applyKw env impl cfg rec f v inst schema
 
 def runKeywordSrc (env : Env) (impl : FmtImpl) (cfg : Cfg) (rec : Rec) (inst schema : Json) (kv : Str × Json) : Gen :=
   match lookupS kv.1 cfg.keywords with
@@ -91,5 +106,6 @@ def evalSrc (env : Env) (impl : FmtImpl) (cfg : Cfg) : Nat → Rec
 /-- names of the translated functions (for the evidence) -/
 def translated : List String :=
   table.filterMap fun p => match p.2 with | .body _ => some p.1 | .unsupported _ => none
+-- (the functions of the second subset are `src2_*`: anyOf, oneOf, properties_draft3, type_draft3)
 
 end JS.Py
